@@ -44,7 +44,8 @@ def strategy(shard):
         @st.composite
         def pred(draw):
             n = draw(st.integers(5, 7))
-            cands = si.CANDS[:n]
+            # letters, or numeric identifiers that are substrings of one another (real candidate ids are numbers)
+            cands = (si.CANDS if draw(st.booleans()) else ["4", "47", "7", "74", "44", "77", "474"])[:n]
             w, l = draw(st.lists(st.sampled_from(cands), min_size=2, max_size=2, unique=True))
             others = [c for c in cands if c not in (w, l)]
             E = sorted(draw(st.sets(st.sampled_from(others))))
@@ -128,8 +129,8 @@ def evaluate(case, out):
     out.cls(mode)
     if mode == "exhaustive":
         total = 0
-        for n in case["ns"]:
-            cands = si.CANDS[:n]
+        for n, ids in [(n, si.CANDS) for n in case["ns"]] + [(3, ["4", "47", "7"]), (4, ["1", "12", "2", "21"])]:
+            cands = ids[:n]
             ranks = list(_partial_rankings(cands))
             for w, l in itertools.permutations(cands, 2):
                 others = [c for c in cands if c not in (w, l)]
